@@ -20,7 +20,7 @@ CLAIMS = {
         engine="pairsim",
         category="exploration",
         design_ref="DESIGN.md §4.2",
-        technique="deterministic simulation: paired worlds (reference schedule vs seeded set-iteration/listing/column permutation x simulated worker-pool schedule with pickle isolation x co-fitted subset), per-feature equality of fitted orders and outputs",
+        technique="deterministic simulation: paired share-nothing worlds (reference schedule vs seeded set-iteration/listing/column permutation x simulated worker-pool schedule with pickle isolation x co-fitted subset), each in its own forked child; per-feature equality of fitted orders and outputs; plus whole reference runs under several real PYTHONHASHSEED values (replayable)",
         text="Seeded search over feature-order permutations and pool interleavings (start/completion order, snapshot instant, at most n in flight) against a reference world with the identity schedule and n_jobs=1; worker-raised rejections must come back as the same AssertionError. Sampled schedules, not all.",
         note="Trusted: SimPool's model of multiprocessing.Pool (pickle boundary, atomic task bodies, feasible completion orders), SimSet as the only hash-seed dependent iteration the code performs on feature names; canonical comparison of GroupedLists and frames.",
     ),
@@ -28,7 +28,7 @@ CLAIMS = {
         engine="session",
         category="exploration",
         design_ref="DESIGN.md §4.3",
-        technique="deterministic simulation with restart faults: sessions on a fitted object saved to an in-memory disk and rebuilt by the real loader at seeded points (chains of generations, restarts of edited objects); never-restarted shadow object as oracle; JSON of every generation compared as JSON values",
+        technique="deterministic simulation with restart faults: sessions on a fitted object saved to an in-memory disk and rebuilt by the real loader at seeded points (chains of generations, restarts of edited objects); never-restarted shadow object as oracle; JSON of every generation compared as JSON values; a sample of restarts across a real process boundary under another hash seed (replayable mode xproc)",
         text="Restart (save/drop/reload) injected at arbitrary points of seeded histories of transforms on seen/unseen/empty frames, summaries and manual edits; the reloaded object must behave like the shadow (same output, same rejection, same summary) and re-serialise to the same JSON. Sampled histories and worlds.",
         note="Trusted: standard json module as the persistence medium (no file system in the library), pickle clone for the shadow, canonical frame comparison (values and NaN positions, numbers by value).",
     ),
@@ -135,7 +135,7 @@ def main():
             {"property_id": pid, "reason": reason}
             for pid, reason in sorted({**NOT_APPLICABLE, **PENDING}.items())
         ],
-        "notes": "All checks: /venv/bin/python /verif/check.py <id> --tier quick|thorough; exit 0 held / 1 VIOLATION with reproduced replay / 2 harness error. AUTOCARVER_SRC (default /repo) selects the tree under test. Known findings: /verif/known_findings.json.",
+        "notes": "Every session run and every world of a pair executes in a forked child (share-nothing); replay files carry the literal world, the operation list, the explicit schedule decision list and the PYTHONHASHSEED of the run. All checks: /venv/bin/python /verif/check.py <id> --tier quick|thorough; exit 0 held / 1 VIOLATION with reproduced replay / 2 harness error. AUTOCARVER_SRC (default /repo) selects the tree under test. Known findings: /verif/known_findings.json.",
     }
     path = os.path.join(HERE, "MANIFEST.json")
     with open(path, "w", encoding="utf-8") as fobj:
